@@ -75,9 +75,14 @@ def gen(rng):
                 else:
                     comps = []
                     for ci in range(len(info["components"])):
-                        cv = var
-                        var += 1
-                        info["components"][ci].append(cv)
+                        if info["components"][ci] and rng.random() < 0.35:
+                            # re-use a component variable that an earlier judgement of this class already named
+                            # (independently per position: same value variable with a new key variable, etc.)
+                            cv = rng.choice(info["components"][ci])
+                        else:
+                            cv = var
+                            var += 1
+                            info["components"][ci].append(cv)
                         comps.append(cv)
                     if k == "map":
                         e = ["map", comps[0], comps[1]]
